@@ -106,6 +106,21 @@ def pTreeKw (k : String) (ts : Toks) : Option (STree × Toks) := do
   let ts ← pKw k ts
   pTree ts
 
+/-- Widgets of a tree in pre-order (driver-side copy of `Lemmas.Vxfw.ids`). -/
+partial def treeIds : STree → List Nat
+  | .node i _ _ ch => i :: ch.flatMap fun (_, _, _, t) => treeIds t
+
+/-- The precondition of the hover theorems (`StepDistinct`): the tree draws every widget at most
+once. Trees given to the mouse handler that do not meet it are rejected (`bad-op`): the property
+quantifies over widget trees, and `Props.C15.hover_needs_distinct` shows what happens otherwise. -/
+def treeDistinct (t : STree) : Bool :=
+  let l := treeIds t
+  l.eraseDups.length == l.length
+
+def pHoverTree (k : String) (ts : Toks) : Option (STree × Toks) := do
+  let (t, ts) ← pTreeKw k ts
+  if treeDistinct t then pure (t, ts) else none
+
 /-! ### printing -/
 
 def evCode : Ev → String
@@ -421,7 +436,7 @@ def stepState (d : DS) (toks : Toks) (impl : String) : Option (DS × String) := 
     pure ({ d with model := m, prev := now, hover := hov, lastTree := t },
       s!"{stateStr m}\t{impl}\t{firstMsg [pathMsg, pinvMsg d.root t now, cm]}")
   | "setframe" :: r :: rest =>
-    let (t, _) ← pTreeKw "T" rest
+    let (t, _) ← pHoverTree "T" rest
     let tm := if r = "1" then sortTree t else t
     let ts := if r = "1" then specSort t else t
     let m := { fresh d.model with lastFrame := tm }
@@ -456,7 +471,7 @@ def stepState (d : DS) (toks : Toks) (impl : String) : Option (DS × String) := 
     pure ({ d with model := m, prev := now, hover := hov },
       s!"{stateStr m merr}\t{impl}\t{firstMsg [hitMsg, routeMsg, cm, pinvMsg d.root d.lastTree now]}")
   | "mupd" :: rest =>
-    let (t, rest) ← pTreeKw "T" rest
+    let (t, rest) ← pHoverTree "T" rest
     let (script, fails, _) ← pScriptE rest
     let eo := mkEOracle d.caps script fails
     let (m, merr) := eMouseUpdate eo fuelDefault (fresh d.model) t
